@@ -68,25 +68,30 @@ Proof. unfold bw_flush. destruct (bw_buf w) eqn:E; [exact E | reflexivity]. Qed.
 
 (* ------------------------------------------------------------------ one write on the pattern writer *)
 Lemma wstep_fst cap pats s w : fst (wstep cap pats s w) = snd (flush_step pats (fst s) w).
-Proof. unfold wstep. destruct (flush_step pats (fst s) w). reflexivity. Qed.
+Proof. unfold wstep. destruct (flush_step pats (fst s) w). destruct flush_after_write; reflexivity. Qed.
 
 Lemma wstep_total cap pats s w : total (snd (wstep cap pats s w)) = total (snd s) ++ w.
 Proof.
-  unfold wstep. destruct (flush_step pats (fst s) w) as [f l]. cbn [snd].
-  destruct f; rewrite ?bw_flush_total; apply bw_write_total.
+  unfold wstep. destruct (flush_step pats (fst s) w) as [f l].
+  destruct flush_after_write; cbn [snd]; destruct f; rewrite ?bw_flush_total, ?bw_write_total, ?bw_flush_total; reflexivity.
 Qed.
 
+(* the flush comes after the write (extracted: flush_after_write), so nothing stays behind *)
 Lemma wstep_flag cap pats s w :
+  flush_after_write = true ->
   fst (flush_step pats (fst s) w) = true -> bw_buf (snd (wstep cap pats s w)) = [].
 Proof.
-  unfold wstep. destruct (flush_step pats (fst s) w) as [f l]. cbn [fst snd]. intros ->. apply bw_flush_buf.
+  intro Hfaw. unfold wstep. rewrite Hfaw. destruct (flush_step pats (fst s) w) as [f l]. cbn [fst snd]. intros ->. apply bw_flush_buf.
 Qed.
 
 Lemma wstep_buf_len cap pats s w :
   (length (bw_buf (snd (wstep cap pats s w))) <= length (bw_buf (snd s)) + length w)%nat.
 Proof.
-  unfold wstep. destruct (flush_step pats (fst s) w) as [f l]. cbn [snd].
-  destruct f; [rewrite bw_flush_buf; simpl; lia | apply bw_write_buf_len].
+  unfold wstep. destruct (flush_step pats (fst s) w) as [f l].
+  destruct flush_after_write; cbn [snd].
+  - destruct f; [rewrite bw_flush_buf; simpl; lia | apply bw_write_buf_len].
+  - destruct f; [|apply bw_write_buf_len].
+    pose proof (bw_write_buf_len cap (bw_flush (snd s)) w) as Hb. rewrite bw_flush_buf in Hb. simpl in Hb. lia.
 Qed.
 
 Lemma wsteps_total cap pats ws : forall s, total (snd (wsteps cap pats s ws)) = total (snd s) ++ concat ws.
@@ -185,6 +190,7 @@ Qed.
 Section Patterns.
   Hypothesis Hstraddle : flush_straddle_check = true.
   Hypothesis Hcontains : flush_contains_check = true.
+  Hypothesis Hfaw : flush_after_write = true.
   Variable cap : nat.
   Variable pats : list pat.
   Hypothesis Hnz : Forall (fun p => fst p <> 0) pats.
@@ -225,7 +231,7 @@ Section Patterns.
           assert (Hf : fst (flush_step pats (rs_last s) d) = true).
           { apply (flush_step_iff Hstraddle Hcontains pats (H ++ B) (rs_last s) d Hst Hnz).
             exists p, a, c. auto. }
-          rewrite (wstep_flag cap pats (rs_last s, rs_bw s) d Hf). simpl. lia.
+          rewrite (wstep_flag cap pats (rs_last s, rs_bw s) d Hfaw Hf). simpl. lia.
         * (* it ended earlier: it was before the buffered bytes already *)
           assert (Heq' : (H ++ B) ++ d = (a ++ [fst p; snd p]) ++ c)
             by (rewrite Heq; apply app_assoc).
@@ -261,15 +267,15 @@ Qed.
    pattern list, every head whose last write is non-empty and EVERY schedule of arrivals and
    reads, each occurrence of a pattern in the bytes read so far is on the client connection. *)
 Theorem pattern_reaches_connection :
-  flush_straddle_check = true -> flush_contains_check = true ->
+  flush_straddle_check = true -> flush_contains_check = true -> flush_after_write = true ->
   forall cap pats h x evs,
     Forall (fun p => fst p <> 0) pats -> x <> [] ->
     let s := relay_run cap pats false (relay_init cap pats (h ++ [x])) evs in
     forall p a c, In p pats -> concat (rs_reads s) = a ++ [fst p; snd p] ++ c ->
       exists rest, delivered s = concat (h ++ [x]) ++ a ++ [fst p; snd p] ++ rest.
 Proof.
-  intros Hs Hc cap pats h x evs Hnz Hx s p a c Hin Heq.
-  destruct (run_pat Hs Hc cap pats Hnz (concat (h ++ [x])) evs _ (init_pat cap pats h x Hx)) as [[Ht _ _] _ Hocc].
+  intros Hs Hc Hfaw cap pats h x evs Hnz Hx s p a c Hin Heq.
+  destruct (run_pat Hs Hc Hfaw cap pats Hnz (concat (h ++ [x])) evs _ (init_pat cap pats h x Hx)) as [[Ht _ _] _ Hocc].
   fold s in Ht, Hocc. set (H := concat (h ++ [x])) in *.
   assert (E : H ++ concat (rs_reads s) = (H ++ a) ++ [fst p; snd p] ++ c)
     by (rewrite Heq, <- app_assoc; reflexivity).
@@ -286,7 +292,7 @@ Qed.
    (LF, CR, CRLF, mixed) form the empty line after an event, once the read containing its last
    byte has happened the whole event is on the client connection — under every schedule. *)
 Theorem event_reaches_connection :
-  flush_straddle_check = true -> flush_contains_check = true ->
+  flush_straddle_check = true -> flush_contains_check = true -> flush_after_write = true ->
   forall pats, In (10, 10) pats -> In (13, 13) pats -> In (10, 13) pats -> In (13, 10) pats ->
   Forall (fun p => fst p <> 0) pats ->
   forall cap h x evs, x <> [] ->
@@ -294,20 +300,20 @@ Theorem event_reaches_connection :
     forall e1 e2 a c, In e1 eols -> In e2 eols -> concat (rs_reads s) = a ++ (e1 ++ e2) ++ c ->
       exists rest, delivered s = concat (h ++ [x]) ++ a ++ (e1 ++ e2) ++ rest.
 Proof.
-  intros Hs Hc pats P1 P2 P3 P4 Hnz cap h x evs Hx s e1 e2 a c H1 H2 Heq.
+  intros Hs Hc Hfaw pats P1 P2 P3 P4 Hnz cap h x evs Hx s e1 e2 a c H1 H2 Heq.
   destruct (blank_line_tail e1 e2 H1 H2) as (p & y & Hp & Hy).
   assert (Hin : In p pats).
   { simpl in Hp. destruct Hp as [<- | [<- | [<- | [<- | []]]]]; assumption. }
   assert (Heq' : concat (rs_reads s) = (a ++ y) ++ [fst p; snd p] ++ c).
   { rewrite Heq, Hy, <- !app_assoc. reflexivity. }
-  destruct (pattern_reaches_connection Hs Hc cap pats h x evs Hnz Hx p (a ++ y) c Hin Heq') as (rest & Hd).
+  destruct (pattern_reaches_connection Hs Hc Hfaw cap pats h x evs Hnz Hx p (a ++ y) c Hin Heq') as (rest & Hd).
   exists rest. fold s in Hd. rewrite Hd, Hy, <- !app_assoc. reflexivity.
 Qed.
 
 (* ... in terms of what the origin has sent: whenever the copy loop is waiting for data
    (nothing unread), every complete event that has arrived is on the client connection. *)
 Corollary sent_event_delivered :
-  flush_straddle_check = true -> flush_contains_check = true ->
+  flush_straddle_check = true -> flush_contains_check = true -> flush_after_write = true ->
   forall pats, In (10, 10) pats -> In (13, 13) pats -> In (10, 13) pats -> In (13, 10) pats ->
   Forall (fun p => fst p <> 0) pats ->
   forall cap h x evs, x <> [] ->
@@ -316,10 +322,10 @@ Corollary sent_event_delivered :
     forall e1 e2 a c, In e1 eols -> In e2 eols -> arrived_of evs = a ++ (e1 ++ e2) ++ c ->
       exists rest, delivered s = concat (h ++ [x]) ++ a ++ (e1 ++ e2) ++ rest.
 Proof.
-  intros Hs Hc pats P1 P2 P3 P4 Hnz cap h x evs Hx s Hav e1 e2 a c H1 H2 Heq.
+  intros Hs Hc Hfaw pats P1 P2 P3 P4 Hnz cap h x evs Hx s Hav e1 e2 a c H1 H2 Heq.
   destruct (relay_conservative cap pats false (h ++ [x]) evs) as (_ & Hr & _). fold s in Hr.
   rewrite Hav, app_nil_r in Hr.
-  apply (event_reaches_connection Hs Hc pats P1 P2 P3 P4 Hnz cap h x evs Hx e1 e2 a c H1 H2).
+  apply (event_reaches_connection Hs Hc Hfaw pats P1 P2 P3 P4 Hnz cap h x evs Hx e1 e2 a c H1 H2).
   fold s. rewrite Hr. exact Heq.
 Qed.
 
@@ -329,14 +335,14 @@ Qed.
    everything read so far is on the client connection, as complete chunks, under every
    schedule and capacity. *)
 Theorem chunk_reaches_connection :
-  flush_contains_check = true ->
+  flush_contains_check = true -> flush_after_write = true ->
   forall cap pats head evs, In (13, 10) pats ->
     let s := relay_run cap pats true (relay_init cap pats head) evs in
     rs_reads s <> [] ->
     bw_buf (rs_bw s) = [] /\
     delivered s = concat head ++ concat (flat_map chunk_writes (rs_reads s)).
 Proof.
-  intros Hc cap pats head evs Hin s Hne.
+  intros Hc Hfaw cap pats head evs Hin s Hne.
   assert (Hb : forall evs s0, (rs_reads s0 <> [] -> bw_buf (rs_bw s0) = []) ->
                let s1 := relay_run cap pats true s0 evs in rs_reads s1 <> [] -> bw_buf (rs_bw s1) = []).
   { clear s Hne evs. intros evs. unfold relay_run.
@@ -346,7 +352,7 @@ Proof.
     cbn [read_writes]. unfold chunk_writes.
     change [hex (N.of_nat (length (firstn (S n) (a0 :: av)))) ++ crlf; firstn (S n) (a0 :: av); crlf]
       with ([hex (N.of_nat (length (firstn (S n) (a0 :: av)))) ++ crlf; firstn (S n) (a0 :: av)] ++ [crlf]).
-    rewrite wsteps_snoc. apply wstep_flag. unfold flush_step. cbn [fst].
+    rewrite wsteps_snoc. apply (wstep_flag _ _ _ _ Hfaw). unfold flush_step. cbn [fst].
     apply existsb_exists. exists (13, 10). split; [exact Hin|].
     unfold flush_hit. rewrite Hc. cbn [fst snd]. apply orb_true_iff. right. reflexivity. }
   assert (Hbuf : bw_buf (rs_bw s) = []).
